@@ -128,6 +128,8 @@ type logqIn struct {
 	Fam     string      `json:"fam"` // C19: "fg" | "pred" (which relations the family of queries must satisfy)
 	Caps    []CapsIn    `json:"caps"`
 	Limit   int         `json:"limit"`
+	// Unsorted: the storage returns the records in the order given here, not in time order (only with a non-positive limit)
+	Unsorted bool       `json:"unsorted"`
 	Start   []int       `json:"start"`
 	End     []int       `json:"end"`
 }
@@ -338,7 +340,7 @@ func (famLogq) Exec(scn int, raw json.RawMessage, t *Trace, opt map[string]strin
 				c.Line = []string{}
 			}
 			t.Ev(scn, "Run", F{"run": run, "q": qi + 1, "caps": c, "txt": q})
-			store := &MemStore{t: t, scn: scn, recs: in.Recs, caps: c}
+			store := &MemStore{t: t, scn: scn, recs: in.Recs, caps: c, unsorted: in.Unsorted}
 			eng := logqlengine.NewEngine(store, logqlengine.Options{})
 			p := logqlengine.EvalParams{Start: tsOf(unixOf(in.Start)), End: tsOf(unixOf(in.End)), Limit: in.Limit}
 			r := evalWithWatchdog(eng, q, p, 20*time.Second)
@@ -483,6 +485,10 @@ func genStage(r *rand.Rand, allowStateful bool) stageIn {
 	case k < 7:
 		return stageIn{T: "label", Pred: genPred(r, 2)}
 	case k < 8:
+		if r.Intn(3) == 0 {
+			// only the listed keys (a key that comes twice in a line still yields its last value, keys behind it still count)
+			return stageIn{T: "logfmt", Labels: IntsList{B(pick(r, lqKeys)), B(pick(r, lqKeys))}[:1+r.Intn(2)]}
+		}
 		return stageIn{T: "logfmt"}
 	case k < 9 && allowStateful:
 		if r.Intn(2) == 0 {
@@ -526,7 +532,7 @@ func genRecs(r *rand.Rand, n int, uniqueTS bool) []MemRec {
 			var parts []string
 			for k := 0; k < nk; k++ {
 				key := pick(r, lqKeys)
-				if used[key] {
+				if used[key] && r.Intn(3) != 0 { // one time in three a key comes twice: the later value is the label
 					continue
 				}
 				used[key] = true
@@ -623,7 +629,42 @@ func genLogq(r *rand.Rand, mode string) logqIn {
 		in.Stages = append(in.Stages, st)
 	}
 	in.Caps = []CapsIn{{Label: []string{}, Line: []string{}}, {Label: allOps, Line: allOps}, {Label: randSubset(r), Line: randSubset(r)}}
-	if mode == "select" && r.Intn(8) == 0 {
+	if mode == "select" && r.Intn(12) == 0 {
+		// logfmt with a field list over lines in which a requested key comes twice (its last value is the label) and
+		// requested keys also stand behind the repetition
+		eps, _ := json.Marshal(&ReAST{T: "eps"})
+		for i := range in.Recs {
+			var doc [][2][]int
+			var parts []string
+			for k := 2 + r.Intn(3); k > 0; k-- {
+				key, val := pick(r, []string{"k", "k", "n", "lvl"}), pick(r, []string{"a", "b", "1", "2"})
+				doc = append(doc, [2][]int{B(key), B(val)})
+				parts = append(parts, key+"="+val)
+			}
+			in.Recs[i].Line, in.Recs[i].Doc = B(strings.Join(parts, " ")), doc
+		}
+		want := IntsList{B("k"), B("n"), B("lvl")}[:1+r.Intn(3)]
+		in.Stages = []stageIn{{T: "logfmt", Labels: want}}
+		if r.Intn(2) == 0 {
+			in.Stages = append(in.Stages, stageIn{T: "label", Pred: &predIn{T: "m", Label: B(pick(r, []string{"k", "n", "lvl"})), Op: []string{"eq", "neq"}[r.Intn(2)], Val: B(pick(r, []string{"a", "b", "1", ""})), Re: eps}})
+		}
+	} else if mode == "select" && r.Intn(12) == 0 {
+		// one regular expression text used in a selector matcher (anchored), a line filter (unanchored) and a label filter (anchored)
+		re := genRe(r, 2, "abwe")
+		raw, _ := json.Marshal(re)
+		txt := B(re.Text())
+		in.Sel = []matcherIn{{Label: B("app"), Op: []string{"re", "nre"}[r.Intn(2)], Val: txt, Re: raw}}
+		in.Stages = []stageIn{{T: "line", Op: []string{"re", "nre"}[r.Intn(2)], Val: txt, Re: raw}}
+		if r.Intn(2) == 0 {
+			in.Stages = append(in.Stages, stageIn{T: "label", Pred: &predIn{T: "m", Label: B("app"), Op: []string{"re", "nre"}[r.Intn(2)], Val: txt, Re: raw}})
+		}
+		if r.Intn(2) == 0 {
+			in.Stages[0], in.Stages[len(in.Stages)-1] = in.Stages[len(in.Stages)-1], in.Stages[0]
+		}
+		for i := range in.Recs {
+			in.Recs[i].Line, in.Recs[i].Doc = B(pick(r, []string{"a", "b", "web", "xaby", "we", "", "aa", "b a"})), [][2][]int{}
+		}
+	} else if mode == "select" && r.Intn(8) == 0 {
 		genIPCase(r, &in)
 	} else if mode == "select" && r.Intn(10) == 0 {
 		// the same value several records in a row (a filter must judge each record on its own), unparsable ones included
@@ -727,6 +768,32 @@ func genLogq(r *rand.Rand, mode string) logqIn {
 		}
 		in.Limit = []int{-1, 0, 1, 2, 3, n - 1, n, n + 1, 5}[r.Intn(9)]
 		in.Caps = in.Caps[:1+r.Intn(2)]
+		if r.Intn(5) == 0 && len(in.Recs) > 1 {
+			// a storage that does not deliver in time order (a container's own log need not be ordered): every stream of the
+			// result is ordered all the same; all records are asked for
+			in.Unsorted = true
+			in.Limit = []int{-1, 0}[r.Intn(2)]
+			if len(in.Recs) >= 3 && r.Intn(3) == 0 {
+				// one stream, a filter that rejects exactly one record, and that record - an early one - delivered right
+				// behind a later one: the only record out of place is one the result does not contain
+				eps, _ := json.Marshal(&ReAST{T: "eps"})
+				for i := range in.Recs {
+					in.Recs[i].Line, in.Recs[i].Doc, in.Recs[i].Attrs = B("m"), [][2][]int{}, [][2][]int{{B("x"), B("a")}}
+				}
+				j := r.Intn(len(in.Recs) - 2)
+				in.Recs[j].Line = B("z")
+				in.Recs[j], in.Recs[j+1], in.Recs[j+2] = in.Recs[j+2], in.Recs[j], in.Recs[j+1]
+				in.Stages = []stageIn{{T: "line", Op: "eq", Val: B("m"), Re: eps}, {T: "drop", Labels: IntsList{B("msg")}}}
+			} else if r.Intn(2) == 0 || len(in.Recs) < 3 {
+				r.Shuffle(len(in.Recs), func(a, b int) { in.Recs[a], in.Recs[b] = in.Recs[b], in.Recs[a] })
+			} else {
+				// almost ordered: a few triples (a, b, c) come as (c, a, b) - a late record right behind a peak, the next one later again
+				for k := 1 + r.Intn(3); k > 0; k-- {
+					i := r.Intn(len(in.Recs) - 2)
+					in.Recs[i], in.Recs[i+1], in.Recs[i+2] = in.Recs[i+2], in.Recs[i], in.Recs[i+1]
+				}
+			}
+		}
 	}
 	_ = fmt.Sprint
 	return in
